@@ -1,0 +1,56 @@
+//go:build verif
+
+package interp
+
+// Contracts for properties C15 (initialisation order) and C16 (source imports).
+// Checked by /verif/govc. Comments only.
+
+//@ trusted func (s *scope) lookup(ident) (sym, level, ok)
+//@   pure
+//@ trusted func childPos(n) (r)
+//@   pure
+
+// getVarDependencies: the visitor records every identifier that denotes another package-level
+// variable — everywhere in the initialiser except the field name of a selector.
+//@ lit getVarDependencies calls:lookup (n) (cont)
+//@   props C15
+//@   opt safety = off
+//@   requires n != nil && n.anc != nil && sc != nil
+//@   let isFieldName: n.anc.kind == selectorExpr && childPos(n) == 1
+//@   let sym: nth(sc.lookup(n.ident), 0)
+//@   let found: nth(sc.lookup(n.ident), 2)
+//@   let isDep: n.kind == identExpr && !isFieldName && found && sym.kind == varSym && sym.global && sym.node != nod
+//@   ensures reference-recorded: isDep ==> len(deps) == old(len(deps)) + 1 && deps[len(deps)-1] == sym.node
+//@   ensures nothing-else-recorded: !isDep ==> deps == old(deps)
+//@   canary isDep ==> deps == old(deps)
+
+// genGlobalVarDecl: a variable is emitted only when all its dependencies have been emitted.
+//@ func genGlobalVarDecl(nodes, sc) (r, err)
+//@   props C15
+//@   opt safety = off
+//@   opt loops = havoc
+//@   opt opaque-calls = getVarDependencies, equalNodes, wireChild, cfgErrorf
+//@   opt opaque-havoc = none
+//@   loop 4 index j
+//@   invariant all-seen-inited: canInit == forall(k, 0, j, has(inited, deps[n][k]) && inited[deps[n][k]])
+
+// importSrc (C16, C15): evaluated at most once per import path, the cycle check precedes every
+// evaluation step, success registers the package; relative imports of main resolve against ".".
+//@ func (interp *Interpreter) importSrc(rPath, importPath, skipTest) (name, err)
+//@   props C16 C15
+//@   opt safety = off
+//@   opt loops = havoc
+//@   opt opaque-calls = *
+//@   opt opaque-havoc = none
+//@   opt inline = isPathRelative
+//@   opt ignore-contracts = skipFile, resizeFrame, genGlobalVars
+//@   opt call-guard:parse = old(interp.srcPkg[importPath]) == nil && !old(interp.rdir[importPath])
+//@   opt call-guard:gta = old(interp.srcPkg[importPath]) == nil && !old(interp.rdir[importPath])
+//@   opt call-guard:cfg = old(interp.srcPkg[importPath]) == nil && !old(interp.rdir[importPath])
+//@   opt call-guard:run = old(interp.srcPkg[importPath]) == nil && !old(interp.rdir[importPath])
+//@   opt call-guard:effectivePkg = strings.HasPrefix(importPath, "./") && old(rPath) == mainID ==> rPath == "."
+//@   requires [assume] interp != nil && interp.srcPkg != nil && interp.pkgNames != nil && interp.rdir != nil && interp.frame != nil
+//@   ensures once: old(interp.srcPkg[importPath]) != nil && old(has(interp.pkgNames, importPath)) ==> err == nil && name == old(interp.pkgNames[importPath])
+//@   ensures cycle-is-an-error: old(interp.srcPkg[importPath]) == nil && old(interp.rdir[importPath]) ==> err != nil
+//@   ensures success-registers: err == nil ==> has(interp.srcPkg, importPath) && has(interp.pkgNames, importPath)
+//@   canary err == nil ==> name == ""
